@@ -54,6 +54,60 @@ pub fn dispatch(k: &str, t: &[&str]) -> Option<String> {
                 other => Some(format!("{:?} [] none", other)),
             }
         }
+        "column_decode_str" => {
+            use crate::stringpack::{IndexedPackedStrings, PackedStrings};
+            let kind = t[0];
+            let fmt_out = |out: &dyn Data| -> String {
+                let ty = out.get_type();
+                let strs = match ty { EncodingType::Str | EncodingType::NullableStr => {
+                    let v = out.cast_ref_str(); if v.is_empty() { "none".to_string() } else { v.iter().map(|s| hex(s.as_bytes())).collect::<Vec<_>>().join(",") } }
+                    _ => "none".to_string() };
+                let pres = if ty == EncodingType::NullableStr { fmt_vec(out.cast_ref_null_map()) } else { "none".to_string() };
+                format!("{:?} {} {}", ty, strs, pres)
+            };
+            match kind {
+                "dict" => {
+                    let e = et(t[1]);
+                    let mut ips = IndexedPackedStrings::default();
+                    for h in t[3].split(',') { ips.push(unsafe { std::str::from_utf8_unchecked(&unhex(h)) }); }
+                    let (ranges, backing) = ips.into_parts();
+                    let nullable = t[4] != "none";
+                    let present: Vec<u8> = if nullable { vec_of::<u8>(t[4]) } else { vec![] };
+                    let mut ops = crate::mem_store::strings::dict_codec(e);
+                    let mut section_types = vec![e, EncodingType::U64, EncodingType::U8];
+                    if nullable { ops.insert(0, CodecOp::PushDataSection(3)); ops.insert(1, CodecOp::Nullable); section_types.push(EncodingType::Bitvec); }
+                    let codec = Codec::new(ops, section_types);
+                    let d8; let d16; let d32;
+                    let idx: &dyn Data = match t[1] { "u8" => { d8 = vec_of::<u8>(t[2]); &d8 } "u16" => { d16 = vec_of::<u16>(t[2]); &d16 } _ => { d32 = vec_of::<u32>(t[2]); &d32 } };
+                    let mut sections: Vec<&dyn Data> = vec![idx, &ranges, &backing];
+                    if nullable { sections.push(&present); }
+                    let out = decode(&codec, &sections);
+                    Some(fmt_out(&*out))
+                }
+                "packed" | "lz4_packed" => {
+                    let strs: Vec<Vec<u8>> = if t[1] == "none" { vec![] } else { t[1].split(',').map(|h| unhex(h)).collect() };
+                    let packed = PackedStrings::from_iterator(strs.iter().map(|s| unsafe { std::str::from_utf8_unchecked(s) })).into_vec();
+                    let nullable = t[2] != "none";
+                    let present: Vec<u8> = if nullable { vec_of::<u8>(t[2]) } else { vec![] };
+                    let mut ops = vec![CodecOp::UnpackStrings];
+                    let data: Vec<u8> = if kind == "lz4_packed" { ops.insert(0, CodecOp::LZ4(EncodingType::U8, packed.len())); crate::mem_store::lz4::encode(&packed) } else { packed };
+                    let mut section_types = vec![EncodingType::U8];
+                    if nullable { ops.push(CodecOp::PushDataSection(1)); ops.push(CodecOp::Nullable); section_types.push(EncodingType::Bitvec); }
+                    let codec = Codec::new(ops, section_types);
+                    let mut sections: Vec<&dyn Data> = vec![&data];
+                    if nullable { sections.push(&present); }
+                    let out = decode(&codec, &sections);
+                    Some(fmt_out(&*out))
+                }
+                _ => {
+                    let data: Vec<u8> = vec![2, 0xab, 0xcd];
+                    let codec = Codec::new(vec![CodecOp::UnhexpackStrings(false, 12)], vec![EncodingType::U8]);
+                    let sections: Vec<&dyn Data> = vec![&data];
+                    let out = decode(&codec, &sections);
+                    Some(fmt_out(&*out))
+                }
+            }
+        }
         _ => None,
     }
 }
